@@ -753,3 +753,86 @@ Proof.
   - intro k. rewrite <- app_assoc. cbn.
     split; intro Hin; apply in_app_or in Hin; apply in_or_app; destruct Hin as [Hin|[Hin|[Hin|Hin]]]; auto; right; cbn; auto.
 Qed.
+
+(* ---- one queued request is applied --------------------------------------------------------------------------- *)
+Lemma do_restack_spec : forall D fuel ch p w cw qh h0,
+  hinv D (vq h0 qh) -> is_restack ch = true -> findw h0 w = Some cw -> w_parent cw = Some p ->
+  hoare (fun h => h = h0) (do_change fuel ch p w)
+        (fun _ h' => hinv D (vq h' qh) /\ stable h0 h' /\ reqs h' = reqs h0).
+Proof.
+  intros D fuel ch p w cw qh h0 HIv Hrs Hw Hwp h E. subst h. unfold do_change. unfold bind at 1.
+  assert (H1 : match (match ch with
+                      | ChInsertFirst => insert_first p w
+                      | ChInsertLast => insert_last fuel p w
+                      | ChRemove => hremove fuel p w ;;; upd w (fun c => set_parent c None) ;;;
+                                    cp <- getw p ;; (if ptr_eqb (w_focus cp) (Some w) then setw p (set_focus cp None) else ret tt)
+                      | ChRaise => hraise fuel p w
+                      | ChRaiseFront => hremove fuel p w ;;; insert_first p w
+                      | ChLower => hlower fuel p w
+                      | ChLowerBack => hremove fuel p w ;;; insert_last fuel p w
+                      end) h0 with
+               | Ok _ h1 => restack_post D qh h0 h1 | Fault _ _ => False | NoFuel => True end).
+  { destruct ch; try discriminate.
+    - exact (hraise_spec D fuel p w cw qh h0 HIv Hw Hwp h0 eq_refl).
+    - exact (raise_front_spec D fuel p w cw qh h0 HIv Hw Hwp h0 eq_refl).
+    - exact (hlower_spec D fuel p w cw qh h0 HIv Hw Hwp h0 eq_refl).
+    - exact (lower_back_spec D fuel p w cw qh h0 HIv Hw Hwp h0 eq_refl). }
+  match goal with |- match match ?m h0 with _ => _ end with _ => _ end => destruct (m h0) as [u1 h1| |] end; [|contradiction|exact I].
+  destruct H1 as [HI1 [S1 [Q1 R1]]].
+  pose proof (st_wins h0 h1 S1 w) as Hsw. rewrite Hw in Hsw.
+  destruct (findw h1 w) as [cw1|] eqn:Hw1; [|contradiction].
+  unfold bind at 1. rewrite (getw_run h1 w cw1 Hw1).
+  destruct (w_visible cw1).
+  - assert (Hlp : findw h1 p <> None).
+    { destruct Hsw as [Hp1 _]. rewrite Hwp in Hp1. exact (hinv_vq_closed D h1 qh HI1 w cw1 p Hw1 Hp1). }
+    pose proof (expose_spec_gen fuel p h1 (hinv_vq_closed D h1 qh HI1) Hlp h1 eq_refl) as He.
+    destruct (expose fuel p h1) as [u2 h2| |]; [|contradiction|exact I].
+    split; [eapply hinv_rx_only; [exact HI1|apply rx_only_vq; exact He]|].
+    split; [eapply stable_trans; [exact S1|apply rx_only_stable; exact He]|].
+    destruct He as [_ [Hq _]]. congruence.
+  - cbn. auto.
+Qed.
+
+Lemma hinv_vq_self : forall D h, hinv D h -> hinv D (vq h (r_queue (rx h))).
+Proof.
+  intros D h HI. eapply hinv_same; eauto. unfold vq, with_rx. cbn. destruct (rx h); reflexivity.
+Qed.
+
+Lemma apply_queue_spec : forall D fuel req h,
+  hinv D (vq h req) ->
+  hoare (fun h1 => h1 = h) (apply_queue fuel req)
+        (fun _ h' => hinv D (vq h' None) /\ stable h h').
+Proof.
+  intros D. induction fuel as [|f IH]; intros req h HIv h0 E; subst h0; cbn [apply_queue]; [exact I|].
+  destruct req as [q|]; [|cbn; split; [exact HIv|apply stable_refl]].
+  destruct (hi_queue D (vq h (Some q)) HIv) as [ql [Hq1 [Hq2 Hq3]]].
+  change (r_queue (rx (vq h (Some q)))) with (Some q) in Hq1.
+  inversion Hq1 as [|q' c rest Hfq Hcrest]; subst.
+  change (findq h q = Some c) in Hfq.
+  unfold bind at 1. rewrite (getq_run h q c Hfq).
+  destruct (Hq3 q c Hfq) as [x [p [cx [G1 [G2 [G3 [G4 G5]]]]]]].
+  rewrite G2, G1. unfold bind at 1. cbn [deref ret]. unfold bind at 1. cbn [deref ret]. unfold bind at 1.
+  pose proof (do_restack_spec D (S f) (q_change c) p x cx (Some q) h HIv (hi_qkind D (vq h (Some q)) HIv q c Hfq) G3 G4 h eq_refl) as Hdo.
+  destruct (do_change (S f) (q_change c) p x h) as [u1 h1| |]; [|contradiction|exact I].
+  destruct Hdo as [HI1 [S1 Q1]].
+  assert (Hfq1 : findq h1 q = Some c) by (unfold findq; rewrite Q1; exact Hfq).
+  unfold bind at 1. rewrite (getq_run h1 q c Hfq1).
+  unfold bind at 1. unfold freeq. unfold findq in Hfq1. rewrite Hfq1.
+  set (h2 := mkHeap (wins h1) (PM.remove q (reqs h1)) (rx h1) (nextw h1) (nextq h1) (dlog h1) (uninit_seen h1) (tr h1)).
+  assert (Hc1 : qchain (vq h1 (Some q)) (r_queue (rx (vq h1 (Some q)))) ([] ++ q :: rest)).
+  { destruct (hi_queue D (vq h1 (Some q)) HI1) as [ql1 [Hc1 _]]. cbn.
+    change (r_queue (rx (vq h1 (Some q)))) with (Some q) in Hc1.
+    inversion Hc1 as [|q'' c1 rest1 Hfq'' Hcr1]; subst.
+    change (findq h1 q = Some c1) in Hfq''. unfold findq in Hfq''. rewrite Hfq1 in Hfq''. inversion Hfq''; subst c1.
+    econstructor; [exact Hfq1|].
+    (* the rest of the chain is determined by q's next pointer, which did not change *)
+    eapply qchain_same; [exact Hcrest|]. intros a Ha. unfold findq, vq, with_rx. cbn. rewrite Q1. reflexivity. }
+  destruct (hinv_qunlink D (vq h1 (Some q)) [] q rest c None HI1 Hc1 Hfq1 (or_introl (conj eq_refl eq_refl))) as [HI2 _].
+  assert (E2 : qunlink (vq h1 (Some q)) None q (q_next c) = vq h2 (q_next c)) by reflexivity.
+  rewrite E2 in HI2.
+  specialize (IH (q_next c) h2 HI2 h2 eq_refl).
+  destruct (apply_queue f (q_next c) h2) as [u3 h3| |]; [|contradiction|exact I].
+  destruct IH as [HI3 S3]. split; [exact HI3|].
+  eapply stable_trans; [exact S1|]. eapply stable_trans; [|exact S3].
+  apply same_wins_stable; reflexivity.
+Qed.
